@@ -1,11 +1,20 @@
 #!/bin/bash
-# C20: separate crate (micromap with feature serde).
+# C20: separate crate (micromap with feature serde), decided in both build profiles.
 set -u
 MODE="$1"; ARG="${2:-}"
 H="$VERIF_DIR/harness-serde"; LOG="$VERIF_DIR/work/build-C20.log"; mkdir -p "$VERIF_DIR/work"
-( cd "$H" && flock "$VERIF_DIR/work/.build20.lock" cargo build --release ) >"$LOG" 2>&1 || { echo "INCONCLUSIVE: serdechk does not build against /repo's current tree (see $LOG)"; tail -n 25 "$LOG"; exit 2; }
-BIN="$H/target/release/serdechk"
-if [ "$MODE" = "--replay" ]; then timeout 300 "$BIN" --replay "$ARG"; rc=$?; else timeout 3600 "$BIN" "$MODE"; rc=$?; fi
-if [ $rc -eq 124 ]; then echo "INCONCLUSIVE: watchdog expired"; exit 2; fi
-if [ $rc -gt 2 ]; then echo "INCONCLUSIVE: serdechk ended abnormally (status $rc)"; exit 2; fi
-exit $rc
+build() { ( cd "$H" && flock "$VERIF_DIR/work/.build20.lock" cargo build $1 ) >"$LOG" 2>&1 || { echo "INCONCLUSIVE: serdechk does not build against /repo's current tree (see $LOG)"; tail -n 25 "$LOG"; exit 2; }; }
+guard() { local rc=$1
+  if [ $rc -eq 124 ]; then echo "INCONCLUSIVE: watchdog expired"; exit 2; fi
+  if [ $rc -gt 2 ]; then echo "INCONCLUSIVE: serdechk ended abnormally (status $rc)"; exit 2; fi
+  [ $rc -ne 0 ] && exit $rc; }
+if [ "$MODE" = "--replay" ]; then
+  build --release; timeout 300 "$H/target/release/serdechk" --replay "$ARG"; rc=$?; guard $rc
+  build ""; timeout 300 "$H/target/debug/serdechk" --replay "$ARG"; rc=$?; guard $rc
+  exit 0
+fi
+build ""
+VERIF_EVIDENCE_SUFFIX=.dev VERIF_EVIDENCE_DIR="$VERIF_DIR/work" timeout 3600 "$H/target/debug/serdechk" "$MODE"; guard $?
+build --release
+VERIF_AUX_EVIDENCE="$VERIF_DIR/work/C20.dev.json" timeout 3600 "$H/target/release/serdechk" "$MODE"; guard $?
+exit 0
